@@ -36,6 +36,9 @@ Events (first element = tag):
     ('ivdone', k, verdict, t)                              the suspended Interest validator of k answers
     ('detach', prefix, t)                                  appv2 detach_handler / legacy unset_interest_filter
 Verdicts: v2: 0 FAIL 1 TIMEOUT 2 SILENCE 3 PASS 4 ALLOW_BYPASS 5 (raise TimeoutError);  v1: index into V1_VALUES.
+In every place of a verdict (vmode ('imm', v), 'vdone', 'interest', 'ivdone') v may also be 'raise:<Class>': the validator
+TERMINATES WITH AN EXCEPTION of that class instead of answering (raise_outcomes(): every exception class ndn.types defines
+plus some built-in ones) - at once, or, for a suspended validator, when it is resumed.
 """
 import asyncio
 import contextvars
@@ -55,6 +58,48 @@ V1_VALUES = [False, True, None, 0, 1, '', 'x', [], [0]]      # truthiness is wha
 
 def v1_truth(k):
     return bool(V1_VALUES[k])
+
+
+# ---- validator outcomes that are not a verdict: the validator terminates with an exception ------------------
+RAISE = 'raise:'
+# built-in classes a validator (one that fetches certificates over the network, looks keys up, ...) ends with
+RAISE_BUILTIN = ['Exception', 'TimeoutError', 'CancelledError', 'OSError']
+# PendingIntEntry.satisfy (appv2, Data) turns these two into the verdict TIMEOUT (model verdict 5)
+RAISE_AS_TIMEOUT_V2 = (RAISE + 'TimeoutError', RAISE + 'CancelledError')
+
+
+def is_raise(v):
+    return isinstance(v, str) and v.startswith(RAISE)
+
+
+def raise_outcomes():
+    """'raise:<Class>' for every exception class the library defines (reflected from ndn.types, so a class added
+    there is covered) and for RAISE_BUILTIN."""
+    import ndn.types as T
+    lib = sorted(n for n, c in vars(T).items()
+                 if isinstance(c, type) and issubclass(c, BaseException) and c.__module__ == T.__name__)
+    return [RAISE + n for n in lib + RAISE_BUILTIN]
+
+
+def make_exception(v):
+    import builtins
+    import ndn.types as T
+    n = v[len(RAISE):]
+    c = getattr(T, n, None)
+    if not (isinstance(c, type) and issubclass(c, BaseException)):
+        c = asyncio.CancelledError if n == 'CancelledError' else getattr(builtins, n)
+    for args in ((), (150,), ([], None, None, None)):
+        try:
+            return c(*args)
+        except TypeError:
+            continue
+    raise ValueError(v)
+
+
+def dies_v2(fe, v):
+    """appv2, Data validator: an exception other than TimeoutError / CancelledError kills the task running
+    PendingIntEntry.satisfy; nobody resolves the future: for the pipeline that validator never answers."""
+    return fe == 'v2' and is_raise(v) and v not in RAISE_AS_TIMEOUT_V2
 
 
 def comp(k):
@@ -179,6 +224,7 @@ class World:
         self.cur_k = None
         self.ivfut = {}            # k -> future a suspended Interest validator is waiting on
         self.detach_errors = []
+        self.raised = []           # the exception objects harness validators terminated with ('raise:<Class>')
         self.main = self.loop.create_task(self.app.main_loop())
         self.loop.settle()
 
@@ -245,6 +291,10 @@ class World:
         return validator
 
     def verdict_value(self, v):
+        if is_raise(v):
+            e = make_exception(v)
+            self.raised.append(e)
+            raise e
         if self.fe == 'v2':
             from ndn.types import ValidResult as VR
             if v == 5:
@@ -554,10 +604,17 @@ class World:
         gc.collect()
         self.loop.settle()
         loop_errs = []
+        escaped = []
         from ndn import types as T
         for c in self.loop.errors:
             exc = c.get('exception')
             msg = c.get('message', '')
+            if exc is not None and any(exc is x for x in self.raised):
+                # the very exception object a harness validator terminated with left the task the library had created
+                # for it (submit_interest / PendingIntEntry.satisfy): the application's own fault coming back, reported
+                # apart (what matters to the properties is what reached the handler / the caller)
+                escaped.append(type(exc).__name__)
+                continue
             if 'Future exception was never retrieved' in msg and isinstance(exc, (T.InterestNack, T.ValidationFailure)):
                 # a Nack / validation failure that lost a same-turn race against the timer: asyncio logs the
                 # superseded future at garbage collection; the Interest itself completed (with Timeout)
@@ -575,6 +632,7 @@ class World:
             'ivcalls': list(self.ivcalls),
             'ivwho': list(self.ivwho),
             'validated_before': dict(self.validated_before),
+            'escaped': escaped,
         }
         return obs
 
@@ -639,6 +697,10 @@ VR_NAMES = {'FAIL': 0, 'TIMEOUT': 1, 'SILENCE': 2, 'PASS': 3, 'ALLOW_BYPASS': 4}
 
 
 def m_verdict(fe, v):
+    """A validator that terminates with an exception gave no accepting verdict: a non-passing model verdict
+    (V2: 5, the model's 'raised'; V1: 0 - what is modelled is whether the validator accepted)."""
+    if is_raise(v):
+        return 5 if fe == 'v2' else 0
     return v if fe == 'v2' else (1 if v1_truth(v) else 0)
 
 
@@ -650,7 +712,7 @@ def m_event(fe, ev):
     tag = ev[0]
     if tag == 'express':
         _, i, name, cbp, dig, life, vmode, t, tie = ev
-        vm = [0, m_verdict(fe, vmode[1])] if vmode[0] == 'imm' else [1]
+        vm = [0, m_verdict(fe, vmode[1])] if vmode[0] == 'imm' and not dies_v2(fe, vmode[1]) else [1]
         return [tie, [0, i, list(name), cbp, m_dig(dig), life, vm, t]]
     if tag == 'await':
         return [ev[3], [1, ev[1], ev[2]]]
@@ -659,6 +721,8 @@ def m_event(fe, ev):
     if tag == 'nack':
         return [ev[5], [3, list(ev[1]), m_dig(ev[2]), nack_reason_value(ev[3]), ev[4]]]
     if tag == 'vdone':
+        if dies_v2(fe, ev[2]):
+            return [ev[4], [7, ev[3]]]        # the validation task dies: no verdict ever (see m_history)
         return [ev[4], [4, ev[1], m_verdict(fe, ev[2]), ev[3]]]
     if tag == 'cancel':
         return [ev[3], [5, ev[1], ev[2]]]
@@ -677,7 +741,17 @@ def m_event(fe, ev):
 
 
 def m_history(fe, h):
-    return [m_event(fe, e) for e in h]
+    out = []
+    dead = set()          # appv2 Interests whose suspended Data validator died: later 'vdone' events find nothing
+    for e in h:
+        if e[0] == 'vdone' and (e[1] in dead or dies_v2(fe, e[2])):
+            dead.add(e[1])
+            out.append([e[4], [7, e[3]]])
+        else:
+            if e[0] == 'express' and e[6][0] == 'imm' and dies_v2(fe, e[6][1]):
+                dead.add(e[1])
+            out.append(m_event(fe, e))
+    return out
 
 
 def fe_num(fe):
@@ -741,6 +815,7 @@ def canon_impl(fe, obs):
         'ivcalls': list(obs['ivcalls']),
         'ivwho': list(obs.get('ivwho', [])),
         'validated_before': obs.get('validated_before', {}),
+        'escaped': list(obs.get('escaped', [])),
     }
 
 
